@@ -1070,6 +1070,16 @@ func c14CLI(c *core.Case, o *core.Outcome) {
 		{"chart", "ramp", "--start-rate", "1/s", "--end-rate", "10/s", "--ramp-duration", "0s"},
 		{"chart"}, {"run"}, {"run", "users"}, {"chart", "nothing"}, {},
 	}
+	// every trigger with otherwise valid flags and no worker at all
+	for _, cv := range []string{"0", "-1"} {
+		for _, tf := range [][]string{{"constant", "-r", "5/10ms"}, {"staged", "-s", "0s:1,10s:1"}, {"ramp", "-s", "1/10ms", "-e", "9/10ms", "-r", "100ms"},
+			{"gaussian", "--volume", "1000", "--repeat", "1m", "--iteration-frequency", "10ms", "--peak", "30s", "--standard-deviation", "10s"}, {"users"}} {
+			if cv == "-1" && tf[0] != "users" && tf[0] != "constant" {
+				continue
+			}
+			fixed = append(fixed, append(append([]string{"run"}, tf...), "-d", "60ms", "--concurrency", cv, "verifScenario"))
+		}
+	}
 	if p.Fixed {
 		p.N = len(fixed)
 	}
@@ -1185,6 +1195,15 @@ func c14CLI(c *core.Case, o *core.Outcome) {
 		if err != nil && strings.HasPrefix(err.Error(), "PANIC") {
 			o.Violate("cli-panic:"+desc, "the CLI panicked: %v (%s)", err, desc)
 			return
+		}
+		// a command line asking for no worker at all (or fewer) cannot yield a trigger with at least one: rejected before setup
+		for k := 0; k+1 < len(args); k++ {
+			if args[k] == "-c" || args[k] == "--concurrency" {
+				if n, perr := strconv.Atoi(args[k+1]); perr == nil && n < 1 && setups.Load() > 0 {
+					o.Violate("cli-no-worker:"+desc, "concurrency %d was accepted: setup ran %d times, %d iterations ran, the CLI returned %v (%s)", n, setups.Load(), iters.Load(), err, desc)
+					return
+				}
+			}
 		}
 		if err != nil {
 			o.AddObs("rejected", 1)
